@@ -79,14 +79,10 @@ LaSatDiv(a, c) == IF a >= LaLim THEN LaLim ELSE a \div c
 LaMin(a, b) == IF a < b THEN a ELSE b
 LaMax(a, b) == IF a > b THEN a ELSE b
 
-RECURSIVE LaMaxAbsFrom(_, _)
-LaMaxAbsFrom(s, i) == IF i > Len(s) THEN 0 ELSE LaMax(LsAbs(s[i]), LaMaxAbsFrom(s, i + 1))
-LaMaxAbs(s) == LaMaxAbsFrom(s, 1)
+LaMaxAbs(s) == FoldLeft(LAMBDA a, b : LaMax(a, LsAbs(b)), 0, s)
 LaMaxAbsM(X) == LaMaxAbs([i \in 1..Len(X) |-> LaMaxAbs(X[i])])
 
-RECURSIVE LaSatSumFrom(_, _)
-LaSatSumFrom(s, i) == IF i > Len(s) THEN 0 ELSE LaSatAdd(s[i], LaSatSumFrom(s, i + 1))
-LaSatSum(s) == LaSatSumFrom(s, 1)
+LaSatSum(s) == FoldLeft(LAMBDA a, b : LaSatAdd(a, b), 0, s)
 
 \* ceil(a * b / c) for b >= 0, c > 0
 LaCeilMulDiv(a, b, c) == -LsMulDiv(-a, b, c)
@@ -118,12 +114,11 @@ LassoInvalid(X, ylen, aN, tolSgn, maxIter, normalize) ==
 \*   K1, K2 (n * penalty weights, numerators over 2^q), q, sLo/sHi (std), h, tolE
 LaH == 4        \* extra bits of the square-root bracket
 
-LaProblem(X, y, aN, aE, l1N, l1E, normalize, tolE) ==
+\* sy, cs, V (sum of y, column sums, n^2 variances) are operator *arguments*: as LET
+\* definitions they would be re-evaluated for every entry of the constructors below
+LaProblemWith(X, y, aN, aE, l1N, l1E, normalize, tolE, sy, cs, V) ==
     LET n  == Len(X)
         p  == LsNCols(X)
-        sy == LsSum(y)
-        cs == [j \in 1..p |-> LsColSum(X, j)]
-        V  == [j \in 1..p |-> LsVarN2(X, j)]
         m1 == l1N
         m2 == LsP2(l1E) - l1N
     IN [ n |-> n, p |-> p, X |-> X, std |-> normalize, sy |-> sy, cs |-> cs, V |-> V,
@@ -142,6 +137,10 @@ LaProblem(X, y, aN, aE, l1N, l1E, normalize, tolE) ==
          sHi |-> IF normalize THEN [j \in 1..p |-> LaISqrt(V[j] * LsP2(2 * LaH)) + 1] ELSE [j \in 1..p |-> 1],
          h   |-> IF normalize THEN LaH ELSE 0,
          tolE |-> tolE ]
+
+LaProblem(X, y, aN, aE, l1N, l1E, normalize, tolE) ==
+    LaProblemWith(X, y, aN, aE, l1N, l1E, normalize, tolE, LsSum(y),
+                  [j \in 1..LsNCols(X) |-> LsColSum(X, j)], [j \in 1..LsNCols(X) |-> LsVarN2(X, j)])
 
 \* magnitudes of the problem data are small enough to form LaProblem at all
 \* (evaluated on the raw event before LaProblem)
